@@ -796,6 +796,41 @@ class Explorer:
             self.exits = {"normal": 0, "raise": 0, "cut": 0}
         return obligations
 
+    def warmup(self, want=32, max_runs=48):
+        """Breadth-first exploration until `want` unexplored decision prefixes are queued (or everything is explored).
+        Returns the obligations of the completed runs; self.pending holds the prefixes of the unexplored subtrees."""
+        obligations = []
+        self.pending = [[]]
+        runs = 0
+        while self.pending and len(self.pending) < want and runs < max_runs:
+            prefix = self.pending.pop(0)
+            runs += 1
+            self.paths += 1
+            run = Run(self, prefix)
+            try:
+                self.run_unit(run)
+            except PathEnd:
+                self.exits["cut"] += 1
+            obligations.extend(run.obligations)
+        return obligations
+
+    def explore_subtree(self, prefix):
+        obligations = []
+        self.pending = [prefix]
+        while self.pending:
+            p = self.pending.pop()
+            self.paths += 1
+            if self.paths > self.max_paths:
+                raise EngineError(f"{self.unit_name}: more than {self.max_paths} paths")
+            run = Run(self, p)
+            try:
+                self.run_unit(run)
+            except PathEnd:
+                self.exits["cut"] += 1
+            # obligations created before the end of the prefix belong to the run that queued this subtree
+            obligations.extend(o for o in run.obligations if len(o.path) >= len(prefix))
+        return obligations
+
     def _explore_once(self):
         obligations = []
         self.pending = [[]]
@@ -924,6 +959,8 @@ class Explorer:
             return
         pf = self.post_frame(run, fr, None)
         pf.vars["raised"] = Conc(exc)
+        for k, v in fr.vars.items():
+            pf.vars.setdefault("loc_" + k, v)      # locals at the raise point (for prover hints only)
         if c.ghost_update is not None:
             from .interp import SpecCtx
             run.spec += 1
